@@ -462,6 +462,10 @@ def a64_mem(r):
         return {"value": t["value"], "txt": ("#" if h else "") + t["txt"], "cls": t["cls"] + ("/#" if h else "/bare")}
 
     form = r.choice(["base", "off", "off", "pre", "post", "idx", "idx-ext", "idx-ext", "idx-ext-noamount"])
+    if r.random() < 0.06:
+        # SVE gather/scatter with a vector of addresses as base: [z1.d], [z1.d, #8], [z1.d, x2]
+        m["base"] = "z%d.%s" % (r.randint(0, 31), r.choice("ds"))
+        form = r.choice(["base", "off", "idx"])
     m["form"] = form
     if form == "off":
         m["offset"] = off()
@@ -595,6 +599,8 @@ def a64_optag(op):
         t += "/" + op["ext"][0] + ("" if op["ext"][1] is None else ("#" if op["ext"][2] else "") + "n")
     if op["base"] == "sp":
         t += "/sp"
+    if op["base"].startswith("z"):
+        t += "/zbase"
     if op["up"]:
         t += "/upper"
     return t
@@ -762,6 +768,8 @@ def a64_classes(ast):
                     out.append("shift:%d" % o["ext"][1])
             if o["base"] == "sp":
                 out.append("mem:base-sp")
+            if o["base"].startswith("z"):
+                out.append("mem:base-vector")
             for f in ("offset", "post"):
                 if o[f]:
                     out.append("memimm:" + o[f]["cls"])
